@@ -6,7 +6,7 @@ from props import textcommon
 
 def keyfn(ev, why):
     return ("text:%s:%s:%s:%s:%s" % (ev["codec"], ev["prop"], ev["form"], textcommon.sym_class(ev["syms"]), why),
-            "%s %s (%s) text %s (hex %s) came back as hex %r, tags ok=%s %s" % (ev["codec"], ev["prop"], ev["form"], "".join("<%s>" % s for s in ev["syms"]),
+            "%s %s (%s) text %s (hex %s) came back as hex %r, tags ok=%s %s" % (ev["codec"], ev["prop"], ev["form"], textcommon.show(ev["syms"]),
                                                                             ev["in"], ev["out"], ev["tagsok"], ev["err"][:100]))
 
 
